@@ -70,7 +70,7 @@ PY
   ( cd "$ROOT" && C17B_NO_RACE=1 VERIF_OVERLAY_SUBST="$SRC=$W/mutant.go" ./props/c17sched/prebuild.sh "$W" 2>"$W/prebuild.log" \
       && go build -tags verif -overlay "$W/overlay.json" -o "$W/bin" ./props/c17sched ) || { echo "MUTANT $m: BUILD FAILED (see $W/prebuild.log)"; continue; }
   start=$(date +%s)
-  VERIF_ROOT="$W/root" C17B_RACE_BIN=/nonexistent ${MUT_ENV:-} "$W/bin" quick > "$W/out.txt" 2>"$W/err.txt"
+  VERIF_ROOT="$W/root" env C17B_RACE_BIN=/nonexistent ${MUT_ENV:-} "$W/bin" quick > "$W/out.txt" 2>"$W/err.txt"
   rc=$?
   echo "MUTANT $m: exit $rc ($(( $(date +%s) - start )) s)"
   grep -A1 -E "^VIOLATION|^KNOWN-FINDING|INTERNAL|^C17 " "$W/out.txt" "$W/err.txt" | grep -E "sig:|KNOWN-FINDING|INTERNAL|new violations" | cut -c1-230 | sed 's/^/    /'
